@@ -27,7 +27,7 @@ Require Import Hdl21.Base.PyInt Hdl21.Spec.PySlice Hdl21.Model.Slice Hdl21.Model
                Hdl21.Spec.Nets Hdl21.Spec.WfDesign Hdl21.Base.Package Hdl21.Base.PrimTable Hdl21.Spec.PkgWf Hdl21.Spec.C01ENets
                Hdl21.Model.C04ConnOps Hdl21.Spec.C04LastWrite Hdl21.Model.C04Groups
                Hdl21.Proofs.FunGraph Hdl21.Model.C01EElab Hdl21.Model.C01FElab Hdl21.Spec.C01FNets Hdl21.Proofs.C01FProofsEnd
-               Hdl21.Model.C04EBridge Hdl21.Model.C04EPipe Hdl21.Proofs.C04EProofs Hdl21.Proofs.C04EEnd Hdl21.Proofs.C04EShape Hdl21.Model.C04EOrd Hdl21.Proofs.C04EOrd.
+               Hdl21.Model.C04EBridge Hdl21.Model.C04EPipe Hdl21.Proofs.C04EProofs Hdl21.Proofs.C04EEnd Hdl21.Proofs.C04EShape Hdl21.Model.C04EOrd Hdl21.Proofs.C04EOrd Hdl21.Proofs.C04EGroups2.
 Open Scope Z_scope.
 
 (* 1. What the elaborator is handed after ANY history is the design of the FINAL mapping: state_design reads `conns`,
@@ -75,6 +75,21 @@ Theorem C04E_groups_agree_valid u ops inmod fuel q r g k a b keys :
   (In (GRef r) g <-> gid (top_of u (fun x => final x ops)) keys a = gid (top_of u (fun x => final x ops)) keys b).
 Proof. exact (groups_agree_valid u ops inmod fuel q r g k a b keys). Qed.
 Print Assumptions C04E_groups_agree_valid.
+
+(* ... and closed_ok is not needed either: instances that are NOT part of the module - the template consumed by `n * Instance`
+   stays connected to whatever it was connected to, also to references to ports of the module - may hold any connections.
+   `follow` filters them out of the back-reference sets (repair C04-2: inmod), the design does not contain them: the groups
+   still agree.  Hypotheses left: the tables are tables, the module filter accepts the instances of the module, the final
+   mapping is valid, q and r are ports of single instances of the design. *)
+Theorem C04E_groups_agree_open u ops inmod fuel q r g k a b keys :
+  u_ok u = true -> (forall x, In x (u_insts u) -> inmod (ui_id x) = true) ->
+  wf_design (design_of u (fun x => final x ops)) = Ok tt ->
+  all_keys (design_of u (fun x => final x ops)) (top_of u (fun x => final x ops)) = Ok keys ->
+  follow (run ops) inmod fuel q [] = Some g ->
+  key_of u q k = Some a -> key_of u r k = Some b -> In a keys -> In b keys ->
+  (In (GRef r) g <-> gid (top_of u (fun x => final x ops)) keys a = gid (top_of u (fun x => final x ops)) keys b).
+Proof. exact (groups_agree_open u ops inmod fuel q r g k a b keys). Qed.
+Print Assumptions C04E_groups_agree_open.
 
 (* ... because the dictionary commutes with "the port my connection refers to" and is injective: the two functional
    graphs have the same weak components (any mapping, not only reachable ones) *)
@@ -290,3 +305,16 @@ Proof.
   cbv zeta. repeat split; try (vm_compute; reflexivity).
   vm_compute. do 4 eexists. repeat split; reflexivity.
 Qed.
+
+(* a template instance (identity 9, not in ex_u) is connected to the reference i0.a before the messy history and STAYS connected:
+   closed_ok fails, the back-reference set of i0.a lists the template's port; with the module filter `follow` finds the same
+   group as before (= the group of the design, C04E_groups_agree_open); without the filter (the code before repair C04-2) the
+   template's port would be a member *)
+Example C04E_ex_template :
+  let ops := [GetRef 0 0; SetAttr 9 0 (AConn (CRef 0 0)); SetAttr 9 1 (AConn ex_s1)] ++ ex_ops2 in
+  closed_ok ex_u (run ops) = false /\ wf_design (design_of ex_u (fun q => final q ops)) = Ok tt /\
+  back_of (CRef 0 0) (st_back (run ops)) = [(9, 0); (1, 0)] /\
+  follow (run ops) (fun i => i <? 3) 7 (0, 0) [] = Some [GRef (0, 0); GConn ex_s0; GRef (1, 0); GRef (2, 0)] /\
+  follow (run ops) (fun _ => true) 7 (0, 0) [] = Some [GRef (0, 0); GConn ex_s0; GRef (9, 0); GRef (1, 0); GRef (2, 0)] /\
+  design_of ex_u (fun q => final q ops) = design_of ex_u (fun q => final q ex_ops1).
+Proof. vm_compute. repeat split. Qed.
